@@ -302,3 +302,320 @@ Theorem generated_prune_taxa_is_restrict_run :
   end = Some (T 0 None None None [T 3 (Some 1) None (Some 3072) []; T 4 (Some 2) None (Some 1024) []]).
 Proof. exact C08W10PruneGen.gen_prune_taxa_w10_run. Qed.
 Print Assumptions generated_prune_taxa_is_restrict_run.
+
+(* ---- wave 11: prune_leaves_without_taxa / filter_leaf_nodes ON THEIR OWN, pointer level and generated ----
+   Closes the partial named after wave 10.  HeapOps.v's prune_leaves_without_taxa(recursive=True) and
+   filter_leaf_nodes(filter_fn, recursive=True) - filter_fn given, as in HeapOps.v and Props/C03Gen.v, by the list
+   `keep` of the node ids on which it is true - are simulated by C08Model's transcriptions (Proofs/C08W11Leaf.v:
+   C08W10Prune.fold_sim / loop_sim, loop_sim_g for an arbitrary leaf test, finish_spec_tail), which equal restrictG
+   (prune_leaves_without_taxa_is_restrictG / filter_leaf_nodes_is_restrictG, Props/C08.v).  restrictG's third
+   predicate (an internal node EMPTIED by the removals is tested like a leaf) is the same test, so the result is
+   `restrict` exactly when no internal node passes the test: internal_untaxed t (no internal node carries a taxon),
+   resp. keeps_no_internal keep t (no kept id is the id of an internal node); the _restrictG versions hold without
+   these side conditions.  Result: a well-formed heap whose abstraction is the restriction with the structural
+   effect of update_bipartitions on top (with_update), for both settings of suppress_unifurcations; if nothing
+   survives the heap program raises at the seed (AttributeError, resp. SeedNodeDeletionException = OtherErr; the
+   method compiled from the CURRENT source raises SeedNodeDeletionException in both). *)
+From DV Require Proofs.C08W11Leaf Proofs.C08W11LeafGen.
+
+Theorem heap_prune_leaves_without_taxa_is_restrict :
+  forall (ub su : bool) (h : heap) (t r : tree),
+  WF h -> abs h = Some t -> C08W11Leaf.internal_untaxed t = true ->
+  C08Model.restrict su C08Model.has_taxon t = Some r ->
+  exists h', HeapOps.prune_leaves_without_taxa true ub su h = HOk h' /\ WF h' /\
+             abs h' = Some (fst (C08Prune.with_update ub su (rooted h) r)).
+Proof. exact C08W11Leaf.heap_plwt_is_restrict_l. Qed.
+Print Assumptions heap_prune_leaves_without_taxa_is_restrict.
+
+Theorem heap_prune_leaves_without_taxa_empties :
+  forall (ub su : bool) (h : heap) (t : tree),
+  WF h -> abs h = Some t -> C08W11Leaf.internal_untaxed t = true ->
+  C08Model.restrict su C08Model.has_taxon t = None ->
+  exists h', HeapOps.prune_leaves_without_taxa true ub su h = HErr AttrErr h' /\ WF h'.
+Proof. exact C08W11Leaf.heap_plwt_empties_l. Qed.
+Print Assumptions heap_prune_leaves_without_taxa_empties.
+
+Theorem heap_filter_leaf_nodes_is_restrict :
+  forall (keep : list Z) (ub su : bool) (h : heap) (t r : tree),
+  WF h -> abs h = Some t -> C08W11Leaf.keeps_no_internal keep t = true ->
+  C08Model.restrict su (C08Model.keep_ids keep) t = Some r ->
+  exists h', HeapOps.filter_leaf_nodes keep true ub su h = HOk h' /\ WF h' /\
+             abs h' = Some (fst (C08Prune.with_update ub su (rooted h) r)).
+Proof. exact C08W11Leaf.heap_filter_is_restrict_l. Qed.
+Print Assumptions heap_filter_leaf_nodes_is_restrict.
+
+Theorem heap_filter_leaf_nodes_empties :
+  forall (keep : list Z) (ub su : bool) (h : heap) (t : tree),
+  WF h -> abs h = Some t -> C08W11Leaf.keeps_no_internal keep t = true ->
+  C08Model.restrict su (C08Model.keep_ids keep) t = None ->
+  exists h', HeapOps.filter_leaf_nodes keep true ub su h = HErr OtherErr h' /\ WF h'.
+Proof. exact C08W11Leaf.heap_filter_empties_l. Qed.
+Print Assumptions heap_filter_leaf_nodes_empties.
+
+(* without the side conditions (any tree, any keep list): restrictG, both outcomes *)
+Theorem heap_prune_leaves_without_taxa_is_restrictG :
+  forall (ub su : bool) (h : heap) (t : tree),
+  WF h -> abs h = Some t ->
+  match C08Model.restrictG su C08Model.has_taxon C08Model.np_true C08Model.has_taxon t with
+  | Some r => exists h', HeapOps.prune_leaves_without_taxa true ub su h = HOk h' /\ WF h' /\
+                         abs h' = Some (fst (C08Prune.with_update ub su (rooted h) r))
+  | None => exists h', HeapOps.prune_leaves_without_taxa true ub su h = HErr AttrErr h' /\ WF h'
+  end.
+Proof. exact C08W11Leaf.heap_plwt_restrictG. Qed.
+Print Assumptions heap_prune_leaves_without_taxa_is_restrictG.
+
+Theorem heap_filter_leaf_nodes_is_restrictG :
+  forall (keep : list Z) (ub su : bool) (h : heap) (t : tree),
+  WF h -> abs h = Some t ->
+  match C08Model.restrictG su (C08Model.keep_ids keep) C08Model.np_true (C08Model.keep_ids keep) t with
+  | Some r => exists h', HeapOps.filter_leaf_nodes keep true ub su h = HOk h' /\ WF h' /\
+                         abs h' = Some (fst (C08Prune.with_update ub su (rooted h) r))
+  | None => exists h', HeapOps.filter_leaf_nodes keep true ub su h = HErr OtherErr h' /\ WF h'
+  end.
+Proof. exact C08W11Leaf.heap_filter_restrictG. Qed.
+Print Assumptions heap_filter_leaf_nodes_is_restrictG.
+
+(* the simulation itself, for either value of `recursive`: whatever the transcription returns, the heap program
+   returns a heap abstracting to it *)
+Theorem heap_prune_leaves_without_taxa_refines_transcription :
+  forall (rc ub su : bool) (h : heap) (t : tree) (rem : list Z) (t' : tree) (r' : option bool),
+  WF h -> abs h = Some t ->
+  C08Model.prune_leaves_without_taxa rc ub su (t, rooted h) = C08Model.IOk (rem, t', r') ->
+  exists h', HeapOps.prune_leaves_without_taxa rc ub su h = HOk h' /\ WF h' /\ abs h' = Some t'.
+Proof. exact C08W11Leaf.heap_plwt_link. Qed.
+Print Assumptions heap_prune_leaves_without_taxa_refines_transcription.
+
+Theorem heap_filter_leaf_nodes_refines_transcription :
+  forall (keep : list Z) (rc ub su : bool) (h : heap) (t : tree) (rem : list Z) (t' : tree) (r' : option bool),
+  WF h -> abs h = Some t ->
+  C08Model.filter_leaf_nodes keep rc ub su (t, rooted h) = C08Model.IOk (rem, t', r') ->
+  exists h', HeapOps.filter_leaf_nodes keep rc ub su h = HOk h' /\ WF h' /\ abs h' = Some t'.
+Proof. exact C08W11Leaf.heap_filter_link. Qed.
+Print Assumptions heap_filter_leaf_nodes_refines_transcription.
+
+(* the methods compiled from _tree.py (through Props/C03Gen.v's prune_leaves_without_taxa_refines /
+   filter_leaf_nodes_refines); fuel bound fuel_of h <= fuel *)
+Theorem generated_prune_leaves_without_taxa_is_restrict :
+  forall (fuel : nat) (ub su : bool) (h : heap) (t r : tree),
+  (Heap.fuel_of h <= fuel)%nat ->
+  WF h -> abs h = Some t -> C08W11Leaf.internal_untaxed t = true ->
+  C08Model.restrict su C08Model.has_taxon t = Some r ->
+  exists h', to_hres (Tree_prune_leaves_without_taxa HG fuel true ub su h) = HOk h' /\ WF h' /\
+             abs h' = Some (fst (C08Prune.with_update ub su (rooted h) r)).
+Proof. exact C08W11LeafGen.gen_plwt_is_restrict. Qed.
+Print Assumptions generated_prune_leaves_without_taxa_is_restrict.
+
+Theorem generated_prune_leaves_without_taxa_empties :
+  forall (fuel : nat) (ub su : bool) (h : heap) (t : tree),
+  (Heap.fuel_of h <= fuel)%nat ->
+  WF h -> abs h = Some t -> C08W11Leaf.internal_untaxed t = true ->
+  C08Model.restrict su C08Model.has_taxon t = None ->
+  exists h', to_hres (Tree_prune_leaves_without_taxa HG fuel true ub su h) = HErr OtherErr h' /\ WF h'.
+Proof. exact C08W11LeafGen.gen_plwt_empties. Qed.
+Print Assumptions generated_prune_leaves_without_taxa_empties.
+
+Theorem generated_filter_leaf_nodes_is_restrict :
+  forall (fuel : nat) (keep : list Z) (ub su : bool) (h : heap) (t r : tree),
+  (Heap.fuel_of h <= fuel)%nat ->
+  WF h -> abs h = Some t -> C08W11Leaf.keeps_no_internal keep t = true ->
+  C08Model.restrict su (C08Model.keep_ids keep) t = Some r ->
+  exists h', to_hres (Tree_filter_leaf_nodes HG fuel (fun nd => memz nd keep) true ub su h) = HOk h' /\ WF h' /\
+             abs h' = Some (fst (C08Prune.with_update ub su (rooted h) r)).
+Proof. exact C08W11LeafGen.gen_filter_is_restrict. Qed.
+Print Assumptions generated_filter_leaf_nodes_is_restrict.
+
+Theorem generated_filter_leaf_nodes_empties :
+  forall (fuel : nat) (keep : list Z) (ub su : bool) (h : heap) (t : tree),
+  (Heap.fuel_of h <= fuel)%nat ->
+  WF h -> abs h = Some t -> C08W11Leaf.keeps_no_internal keep t = true ->
+  C08Model.restrict su (C08Model.keep_ids keep) t = None ->
+  exists h', to_hres (Tree_filter_leaf_nodes HG fuel (fun nd => memz nd keep) true ub su h) = HErr OtherErr h' /\ WF h'.
+Proof. exact C08W11LeafGen.gen_filter_empties. Qed.
+Print Assumptions generated_filter_leaf_nodes_empties.
+
+Theorem generated_prune_leaves_without_taxa_is_restrictG :
+  forall (fuel : nat) (ub su : bool) (h : heap) (t r : tree),
+  (Heap.fuel_of h <= fuel)%nat ->
+  WF h -> abs h = Some t ->
+  C08Model.restrictG su C08Model.has_taxon C08Model.np_true C08Model.has_taxon t = Some r ->
+  exists h', to_hres (Tree_prune_leaves_without_taxa HG fuel true ub su h) = HOk h' /\ WF h' /\
+             abs h' = Some (fst (C08Prune.with_update ub su (rooted h) r)).
+Proof. exact C08W11LeafGen.gen_plwt_restrictG. Qed.
+Print Assumptions generated_prune_leaves_without_taxa_is_restrictG.
+
+Theorem generated_filter_leaf_nodes_is_restrictG :
+  forall (fuel : nat) (keep : list Z) (ub su : bool) (h : heap) (t r : tree),
+  (Heap.fuel_of h <= fuel)%nat ->
+  WF h -> abs h = Some t ->
+  C08Model.restrictG su (C08Model.keep_ids keep) C08Model.np_true (C08Model.keep_ids keep) t = Some r ->
+  exists h', to_hres (Tree_filter_leaf_nodes HG fuel (fun nd => memz nd keep) true ub su h) = HOk h' /\ WF h' /\
+             abs h' = Some (fst (C08Prune.with_update ub su (rooted h) r)).
+Proof. exact C08W11LeafGen.gen_filter_restrictG. Qed.
+Print Assumptions generated_filter_leaf_nodes_is_restrictG.
+
+(* hypotheses satisfiable - ((A,_)X,C)R rooted, the second child of X without taxon,
+   suppress_unifurcations=True: the untaxed leaf goes and X is suppressed (A:1024 + X:2048 = 3072) - and the
+   generated method run on it *)
+Theorem generated_prune_leaves_without_taxa_is_restrict_nonvacuous :
+  (Heap.fuel_of C08W11Leaf.w11_heap <= 10)%nat /\
+  WF C08W11Leaf.w11_heap /\ abs C08W11Leaf.w11_heap = Some C08W11Leaf.w11_tree /\
+  C08W11Leaf.internal_untaxed C08W11Leaf.w11_tree = true /\
+  C08Model.restrict true C08Model.has_taxon C08W11Leaf.w11_tree =
+    Some (T 0 None None None [T 2 (Some 0) None (Some 3072) []; T 4 (Some 2) None (Some 1024) []]).
+Proof. exact C08W11LeafGen.gen_plwt_is_restrict_hyps. Qed.
+Print Assumptions generated_prune_leaves_without_taxa_is_restrict_nonvacuous.
+
+Theorem generated_prune_leaves_without_taxa_is_restrict_run :
+  match to_hres (Tree_prune_leaves_without_taxa HG 10 true false true C08W11Leaf.w11_heap) with
+  | HOk h' => abs h'
+  | _ => None
+  end = Some (T 0 None None None [T 2 (Some 0) None (Some 3072) []; T 4 (Some 2) None (Some 1024) []]).
+Proof. exact C08W11LeafGen.gen_plwt_w11_run. Qed.
+Print Assumptions generated_prune_leaves_without_taxa_is_restrict_run.
+
+(* ((A,B)X,C)R rooted, filter_fn true exactly on the leaves B (id 3) and C (id 4), suppress_unifurcations=True *)
+Theorem generated_filter_leaf_nodes_is_restrict_nonvacuous :
+  (Heap.fuel_of C08W10Prune.w10_heap <= 10)%nat /\
+  WF C08W10Prune.w10_heap /\ abs C08W10Prune.w10_heap = Some C08W10Prune.w10_tree /\
+  C08W11Leaf.keeps_no_internal [3; 4] C08W10Prune.w10_tree = true /\
+  C08Model.restrict true (C08Model.keep_ids [3; 4]) C08W10Prune.w10_tree =
+    Some (T 0 None None None [T 3 (Some 1) None (Some 3072) []; T 4 (Some 2) None (Some 1024) []]).
+Proof. exact C08W11LeafGen.gen_filter_is_restrict_hyps. Qed.
+Print Assumptions generated_filter_leaf_nodes_is_restrict_nonvacuous.
+
+Theorem generated_filter_leaf_nodes_is_restrict_run :
+  match to_hres (Tree_filter_leaf_nodes HG 10 (fun nd => memz nd [3; 4]) true false true C08W10Prune.w10_heap) with
+  | HOk h' => abs h'
+  | _ => None
+  end = Some (T 0 None None None [T 3 (Some 1) None (Some 3072) []; T 4 (Some 2) None (Some 1024) []]).
+Proof. exact C08W11LeafGen.gen_filter_w11_run. Qed.
+Print Assumptions generated_filter_leaf_nodes_is_restrict_run.
+
+(* ---- wave 11: the label wrappers.  Tree_prune_taxa_with_labels / Tree_retain_taxa_with_labels (compiled from
+   _tree.py) resolve the labels with get_taxa and call the unlabelled method (Props/C03Gen.v with_labels_delegate);
+   with get_taxa := C08Model.get_taxa ns cs (TaxonNamespace.get_taxa(labels=...): the members of the namespace ns
+   whose label matches one of the labels, case-sensitively iff cs) and labels that name the taxa `pruned` / `keep`
+   on the leaves of t (labels_name_ns), they return the restriction. *)
+From DV Require Proofs.C08Final Proofs.C08Thms Proofs.C08W11Labels.
+
+Theorem generated_prune_taxa_with_labels_is_restrict :
+  forall (fuel : nat) (ns : C08Model.nspace) (cs : bool) (labels pruned : list Z) (ub su : bool) (h : heap) (t r : tree),
+  (Heap.fuel_of h <= fuel)%nat ->
+  WF h -> abs h = Some t -> C08Model.leaf_taxa_only t = true ->
+  C08Thms.labels_name_ns ns cs labels pruned t ->
+  C08Model.restrict su (C08Model.drop_taxa pruned) t = Some r ->
+  exists h', to_hres (Tree_prune_taxa_with_labels HG fuel (C08Model.get_taxa ns cs) labels ub su true false h) = HOk h' /\
+             WF h' /\ abs h' = Some (fst (C08Prune.with_update ub su (rooted h) r)).
+Proof. exact C08W11Labels.gen_prune_labels_is_restrict. Qed.
+Print Assumptions generated_prune_taxa_with_labels_is_restrict.
+
+Theorem generated_retain_taxa_with_labels_is_restrict :
+  forall (fuel : nat) (ns : C08Model.nspace) (cs : bool) (labels keep : list Z) (ub su : bool) (h : heap) (t r : tree),
+  (Heap.fuel_of h <= fuel)%nat ->
+  WF h -> abs h = Some t -> C08Model.leaf_taxa_only t = true ->
+  C08Final.taxa_in_ns ns t ->
+  C08Thms.labels_name_ns ns cs labels keep t ->
+  C08Model.restrict su (C08Model.keep_taxa keep) t = Some r ->
+  exists h', to_hres (Tree_retain_taxa_with_labels HG fuel (map fst ns) (C08Model.get_taxa ns cs) labels ub su h) = HOk h' /\
+             WF h' /\ abs h' = Some (fst (C08Prune.with_update ub su (rooted h) r)).
+Proof. exact C08W11Labels.gen_retain_labels_is_restrict. Qed.
+Print Assumptions generated_retain_taxa_with_labels_is_restrict.
+
+(* hypotheses satisfiable - ((A,B)X,C)R rooted, namespace labels 0 2 4 (labels 2k and 2k+1 differ only in case):
+   prune label 1 case-insensitively (names A); retain labels 2 and 5 (name B and C) - and the generated runs *)
+Theorem generated_prune_taxa_with_labels_nonvacuous :
+  (Heap.fuel_of C08W10Prune.w10_heap <= 10)%nat /\
+  WF C08W10Prune.w10_heap /\ abs C08W10Prune.w10_heap = Some C08W10Prune.w10_tree /\
+  C08Model.leaf_taxa_only C08W10Prune.w10_tree = true /\
+  C08Thms.labels_name_ns C08W11Labels.w11_ns false [1] [0] C08W10Prune.w10_tree /\
+  C08Model.restrict true (C08Model.drop_taxa [0]) C08W10Prune.w10_tree =
+    Some (T 0 None None None [T 3 (Some 1) None (Some 3072) []; T 4 (Some 2) None (Some 1024) []]).
+Proof. exact C08W11Labels.gen_prune_labels_hyps. Qed.
+Print Assumptions generated_prune_taxa_with_labels_nonvacuous.
+
+Theorem generated_prune_taxa_with_labels_run :
+  match to_hres (Tree_prune_taxa_with_labels HG 10 (C08Model.get_taxa C08W11Labels.w11_ns false) [1] false true true false
+                   C08W10Prune.w10_heap) with
+  | HOk h' => abs h'
+  | _ => None
+  end = Some (T 0 None None None [T 3 (Some 1) None (Some 3072) []; T 4 (Some 2) None (Some 1024) []]).
+Proof. exact C08W11Labels.gen_prune_labels_run. Qed.
+Print Assumptions generated_prune_taxa_with_labels_run.
+
+Theorem generated_retain_taxa_with_labels_nonvacuous :
+  (Heap.fuel_of C08W10Prune.w10_heap <= 10)%nat /\
+  WF C08W10Prune.w10_heap /\ abs C08W10Prune.w10_heap = Some C08W10Prune.w10_tree /\
+  C08Model.leaf_taxa_only C08W10Prune.w10_tree = true /\
+  C08Final.taxa_in_ns C08W11Labels.w11_ns C08W10Prune.w10_tree /\
+  C08Thms.labels_name_ns C08W11Labels.w11_ns false [2; 5] [1; 2] C08W10Prune.w10_tree /\
+  C08Model.restrict true (C08Model.keep_taxa [1; 2]) C08W10Prune.w10_tree =
+    Some (T 0 None None None [T 3 (Some 1) None (Some 3072) []; T 4 (Some 2) None (Some 1024) []]).
+Proof. exact C08W11Labels.gen_retain_labels_hyps. Qed.
+Print Assumptions generated_retain_taxa_with_labels_nonvacuous.
+
+Theorem generated_retain_taxa_with_labels_run :
+  match to_hres (Tree_retain_taxa_with_labels HG 10 (map fst C08W11Labels.w11_ns)
+                   (C08Model.get_taxa C08W11Labels.w11_ns false) [2; 5] false true C08W10Prune.w10_heap) with
+  | HOk h' => abs h'
+  | _ => None
+  end = Some (T 0 None None None [T 3 (Some 1) None (Some 3072) []; T 4 (Some 2) None (Some 1024) []]).
+Proof. exact C08W11Labels.gen_retain_labels_run. Qed.
+Print Assumptions generated_retain_taxa_with_labels_run.
+
+(* ---- wave 11: filter_leaf_nodes(recursive=False), pointer level and generated: one pass; an internal node
+   emptied by the pass stays (third predicate np_true), as filter_leaf_nodes_nonrecursive (Props/C08.v) says of the
+   transcription ---- *)
+From DV Require Proofs.C08W11NonRec.
+
+Theorem heap_filter_leaf_nodes_nonrecursive_is_restrictG :
+  forall (keep : list Z) (ub su : bool) (h : heap) (t : tree),
+  WF h -> abs h = Some t ->
+  match C08Model.restrictG su (C08Model.keep_ids keep) C08Model.np_true C08Model.np_true t with
+  | Some r => exists h', HeapOps.filter_leaf_nodes keep false ub su h = HOk h' /\ WF h' /\
+                         abs h' = Some (fst (C08Prune.with_update ub su (rooted h) r))
+  | None => exists h', HeapOps.filter_leaf_nodes keep false ub su h = HErr OtherErr h' /\ WF h'
+  end.
+Proof. exact C08W11NonRec.heap_filter_nonrec_restrictG. Qed.
+Print Assumptions heap_filter_leaf_nodes_nonrecursive_is_restrictG.
+
+Theorem generated_filter_leaf_nodes_nonrecursive_is_restrictG :
+  forall (fuel : nat) (keep : list Z) (ub su : bool) (h : heap) (t r : tree),
+  (Heap.fuel_of h <= fuel)%nat ->
+  WF h -> abs h = Some t ->
+  C08Model.restrictG su (C08Model.keep_ids keep) C08Model.np_true C08Model.np_true t = Some r ->
+  exists h', to_hres (Tree_filter_leaf_nodes HG fuel (fun nd => memz nd keep) false ub su h) = HOk h' /\ WF h' /\
+             abs h' = Some (fst (C08Prune.with_update ub su (rooted h) r)).
+Proof. exact C08W11NonRec.gen_filter_nonrec_restrictG. Qed.
+Print Assumptions generated_filter_leaf_nodes_nonrecursive_is_restrictG.
+
+(* ((A,B)X,C)R rooted, filter_fn true on C only, one pass: A and B go, the emptied X stays as a leaf *)
+Theorem generated_filter_leaf_nodes_nonrecursive_nonvacuous :
+  (Heap.fuel_of C08W10Prune.w10_heap <= 10)%nat /\
+  WF C08W10Prune.w10_heap /\ abs C08W10Prune.w10_heap = Some C08W10Prune.w10_tree /\
+  C08Model.restrictG false (C08Model.keep_ids [4]) C08Model.np_true C08Model.np_true C08W10Prune.w10_tree =
+    Some (T 0 None None None [T 1 None None (Some 2048) []; T 4 (Some 2) None (Some 1024) []]).
+Proof. exact C08W11NonRec.gen_filter_nonrec_hyps. Qed.
+Print Assumptions generated_filter_leaf_nodes_nonrecursive_nonvacuous.
+
+Theorem generated_filter_leaf_nodes_nonrecursive_run :
+  match to_hres (Tree_filter_leaf_nodes HG 10 (fun nd => memz nd [4]) false false false C08W10Prune.w10_heap) with
+  | HOk h' => abs h'
+  | _ => None
+  end = Some (T 0 None None None [T 1 None None (Some 2048) []; T 4 (Some 2) None (Some 1024) []]).
+Proof. exact C08W11NonRec.gen_filter_nonrec_run. Qed.
+Print Assumptions generated_filter_leaf_nodes_nonrecursive_run.
+
+(* the side condition keeps_no_internal cannot be dropped: ((A,B)X,C)R, filter_fn true on X and C - the generated
+   method (and the library: replayed) keeps the emptied X as a leaf, `restrict` does not *)
+From DV Require Proofs.C08W11Side.
+
+Theorem filter_leaf_nodes_is_restrict_without_side_condition_refuted :
+  C08W11Leaf.keeps_no_internal [1; 4] C08W10Prune.w10_tree = false /\
+  C08Model.restrict false (C08Model.keep_ids [1; 4]) C08W10Prune.w10_tree =
+    Some (T 0 None None None [T 4 (Some 2) None (Some 1024) []]) /\
+  match to_hres (Tree_filter_leaf_nodes HG 10 (fun nd => memz nd [1; 4]) true false false C08W10Prune.w10_heap) with
+  | HOk h' => abs h'
+  | _ => None
+  end = Some (T 0 None None None [T 1 None None (Some 2048) []; T 4 (Some 2) None (Some 1024) []]).
+Proof. exact C08W11Side.filter_is_restrict_without_side_condition_refuted. Qed.
+Print Assumptions filter_leaf_nodes_is_restrict_without_side_condition_refuted.
